@@ -216,6 +216,11 @@ def run_check(chk, repo, tier):
             conj_atoms = [x for x in ret.atoms(deep=False) if is_app(x, 'conj')] if isinstance(ret, Poly) else []
             ok_form = isinstance(ret, Poly) and len(ret.terms) == 1 and len(conj_atoms) == 1 \
                 and conj_atoms[0][2][0] == res
+            if not ok_form and isinstance(ret, Poly) and not conj_atoms and res.single_atom() in nf.value_atoms(ret):
+                # the forward transform of conj(F) is handed back without the closing conjugation
+                chk.ob('C01-h', 'N-gain', 'fourier.idft2', f'inverse = conj(dft2(conj(F))) [{ulabel}, {conds_str(p)[:60]}]', False,
+                       f'returns {fmt(ret)[:120]}: the result of dft2(conj(F)) is not conjugated back', f.loc(p.node))
+                continue
             if not ok_form:
                 raise AnalysisError(f'idft2 result is not post*conj(dft2(conj(F))): {fmt(ret)}')
             post = ret / Poly.atom(conj_atoms[0])
